@@ -38,6 +38,9 @@ CHECKS['C12'] = dict(cat='model_checking', tech='TLA+ walk machine: TLC over all
 CHECKS['C13'] = dict(cat='model_checking', tech='TLA+ option iterator/encoder machines: TLC over token sequences and element lists + per next() trace validation',
    text="spec/TcpOpts.tla holds the option iterator as a machine (NextOpt: item / end / set of admissible errors, dead afterwards) and the encoder (Required, Encode with END padding). TLC checks Tiling, Bounded, StaysDead on every truncation of every sequence of up to 2 (thorough: 3) tokens (all six kinds, the four SACK sizes, END, malformed size bytes, unknown kinds) and Fits on all element lists up to 3 (4) elements plus lists crossing 40 bytes by every margin. Every case and seeded random areas/lists are executed on TcpOptionsIterator (each next() call and rest() logged), TcpHeaderSlice::options_iterator, TcpOptions::try_from_elements / try_from_slice and TcpHeader::set_options; Trace_TcpOpts steps the machine along the recorded calls.",
    note="Option payload bytes are patterns (they do not influence control flow). Non-canonical SACK elements (a block behind a None slot) are outside the element domain.")
+CHECKS['C09'] = dict(cat='model_checking', tech='RFC 1071 accumulator machine in TLA+: TLC over all chunkings + per-step trace validation of the 32/64-bit registers and all protocol checksum functions',
+   text="spec/Checksum.tla is the RFC 1071 accumulator as a machine on 16-bit quantities plus the RFC pseudo-header compositions. TLC explores every chunking (add_2/4/8bytes, slices cut at even offsets, odd tail last) of every byte string over a small alphabet and checks SplitIndependence (running sum = Fold1071 of everything added so far) and RFC known-answer vectors. Binding: each chunking is replayed into Sum16BitWords, u32_16bit_word and u64_16bit_word and the folded value is validated after EVERY add call; directed saturation cases force end-around carries of the 32/64-bit registers themselves; all lengths 0..70 with random chunkings; every calc_checksum*/with_*_checksum/update_checksum*/is_checksum_valid/calc_header_checksum variant of UDP, TCP (header, header slice, slice), ICMPv4, ICMPv6, IGMP and IPv4 over v4/v6 is recomputed by Trace_Checksum from header bytes, payload and addresses (UDP never 0).",
+   note="This is numeric code: TLC exhausts the 16-bit machine only; the 64-bit implementation is bound by per-step validation on directed and seeded inputs (testing against a formal oracle). Little-endian host. Checksums filled in by the PacketBuilder are validated by the C10 check.")
 PENDING = {
 }
 NA = []
